@@ -2,7 +2,7 @@
 # pylint: disable=no-self-argument,no-method-argument,missing-function-docstring
 from pyvc.dsl import (contract, spec, Int, Bool, Real, Str, Opt, OneOf, Rec, Ref, External, ListOf, SeqOf, SetOf,
                       DictOf, Const, Loop, implies, iff, forall, exists)
-from contracts.locations import FL, LOC, CL, wf, contains_spec
+from contracts.locations import FL, LOC, CL, wf, contains_spec, part_ok, inside, share
 
 PROTO_FILE = "antismash/common/secmet/features/protocluster.py"
 
@@ -160,3 +160,77 @@ class FeatureLessThan:
                                 or (total_length(self) == total_length(other) and self.type == "source")))),
     }
     returns = Bool
+
+
+# ---- Record.get_cds_features_within_location: which genes a location holds -------------------------------------
+RECORD_FILE = "antismash/common/secmet/record.py"
+GENE_ON_ONE_STRETCH = Rec("CDSFeature", label="GeneOnOneStretch", location=FL)
+RECORD_WITH_GENES = Rec("Record", label="RecordWithGenes", _cds_features=SeqOf(GENE_ON_ONE_STRETCH))
+
+
+@spec
+def gene_qualifies(gene, location, with_overlapping):
+    """wholly inside the location, or (when asked for) sharing a base with it"""
+    return inside(gene.location, location) or (with_overlapping and share(gene.location, location))
+
+
+@spec
+def same_gene(a, b):
+    return (a.location.start == b.location.start and a.location.end == b.location.end
+            and a.location.strand == b.location.strand)
+
+
+@spec
+def genes_in_record_order(genes):
+    """the order Feature.__lt__ (FeatureLessThan above) keeps the gene list in, as far as the lookup relies on it"""
+    n = len(genes)
+    return (forall(range(0, n), lambda j: part_ok(genes[j].location))
+            and forall(range(0, n), lambda i: forall(range(0, n), lambda j: implies(
+                i <= j, genes[i].location.start <= genes[j].location.start))))
+
+
+@contract(f"{RECORD_FILE}::Record.get_cds_features_within_location", props=["C08"])
+class RecordGenesWithinLocation:
+    """A record holding ANY number of genes (loop cut by an invariant), each on one stretch of the contig, asked
+    for the genes of a one-part location: the answer holds exactly the genes wholly inside the location - with
+    `with_overlapping` exactly those sharing a base with it - however they are nested or tied, in record order."""
+    params = {"self": RECORD_WITH_GENES, "location": FL, "with_overlapping": Bool}
+    prove_timeout_s = 60     # quantified invariants: 1-10 s each on an idle machine, budgeted for a busy one
+    budget_s = 900
+
+    def requires(self, location):
+        return genes_in_record_order(self._cds_features) and part_ok(location)
+
+    loops = {1: Loop(
+        types={"results": SeqOf(GENE_ON_ONE_STRETCH)},
+        invariant={
+            "kept-genes-are-qualifying-genes-seen-so-far": lambda self, results, location, with_overlapping, _i:
+                forall(range(0, len(results)), lambda k: exists(range(0, _i), lambda m:
+                       same_gene(results[k], self._cds_features[m])
+                       and gene_qualifies(self._cds_features[m], location, with_overlapping))),
+            "no-qualifying-gene-seen-so-far-is-missing": lambda self, results, location, with_overlapping, _i:
+                forall(range(0, _i), lambda m: implies(
+                    gene_qualifies(self._cds_features[m], location, with_overlapping),
+                    exists(range(0, len(results)), lambda k: same_gene(results[k], self._cds_features[m])))),
+            "kept-genes-in-record-order": lambda results:
+                forall(range(0, len(results) - 1),
+                       lambda k: results[k].location.start <= results[k + 1].location.start),
+            "kept-genes-start-no-later-than-the-next-gene": lambda self, results, _i:
+                implies(_i < len(self._cds_features), forall(range(0, len(results)), lambda k:
+                        results[k].location.start <= self._cds_features[_i].location.start)),
+            "nothing-kept-twice": lambda results, _i: len(results) <= _i,
+        })}
+
+    ensures = {
+        "only-genes-of-the-record-that-qualify": lambda self, location, with_overlapping, result:
+            forall(range(0, len(result)), lambda k: exists(range(0, len(self._cds_features)), lambda m:
+                   same_gene(result[k], self._cds_features[m])
+                   and gene_qualifies(self._cds_features[m], location, with_overlapping))),
+        "every-qualifying-gene-however-nested-or-tied": lambda self, location, with_overlapping, result:
+            forall(range(0, len(self._cds_features)), lambda m: implies(
+                gene_qualifies(self._cds_features[m], location, with_overlapping),
+                exists(range(0, len(result)), lambda k: same_gene(result[k], self._cds_features[m])))),
+        "in-record-order-nothing-twice": lambda self, result:
+            len(result) <= len(self._cds_features)
+            and forall(range(0, len(result) - 1), lambda k: result[k].location.start <= result[k + 1].location.start),
+    }
